@@ -443,3 +443,19 @@ def vg_reopen(c, a):
     c.h["F"] = fid
     L.Vinitialize(fid)
     return {"ret": 0 if fid != FAIL else FAIL}
+
+
+@op("VGroup", "Peek")
+def vg_peek(c, a):
+    arr = h4api.i32arr([0] * 64)
+    n = c.L.Vlone(c.h["F"], arr, 64)
+    n2 = c.L.VSlone(c.h["F"], arr, 64)
+    return {"ret": 0 if (n != FAIL and n2 != FAIL) else FAIL}
+
+
+@op("VGroup", "Reattach")
+def vg_reattach(c, a):
+    h2 = c.L.Vattach(c.h["F"], c.v["gref"][a["g"]], a["mode"].encode())
+    if h2 == FAIL:
+        return {"ret": FAIL}
+    return {"ret": c.L.Vdetach(h2)}
